@@ -16,11 +16,13 @@ LEVEL_TEXT = ("Bounded contract checking: every clause of the statement (enumera
               "deductively; Sweep.generate is a generator over itertools.product of a variable number of sequences and "
               "closures (exclude/derivers), which is outside the proof rung - hence 'exploration'.")
 LEVEL_TEXT += (" Also proved: MultiSweep.combine (the receiver's list of sweeps is extended by the operand - a MultiSweep contributes its sweeps, in order, anything else itself - and the receiver is returned), Sweep.__add__ (a + b is the MultiSweep of exactly (a, b), in this order; TypeError exactly for a non-Sweep operand; the MultiSweep constructor is an assumed contract) and MultiSweep.__add__: the part of '+ / MultiSweep yields their concatenation' that is list manipulation.")
+LEVEL_TEXT += (' And Sweep.__len__ (31 obligations): with an exclude function the number of combinations that list() yields (list is an assumed contract); without items 0; otherwise the product of the lengths of all items when dims is None or names exactly the keys (stated along the duplicate-free enumeration of the keys that the loop follows - a ghost witness), else the product of the sizes of the zipped groups, a group having the length of its first member; IndexError / KeyError exactly for an empty group / a group whose first member is not an item.')
 LEVEL_NOTE = ("Bounds: <=4 keys (quick <=3), value lists of length 0..3 with pairwise distinct values, all partitions of "
               "the keys into dims groups and dims=None, optional constants/derivers/exclude that read only the "
               "operand's own keys, pairs and triples for product and +. Reference: reference semantics in this file.")
 TECHNIQUE = "bounded contract checking against a reference from the statement (+ one deductively verified helper)"
 TECHNIQUE += ('; MultiSweep.combine, Sweep.__add__ and MultiSweep.__add__ discharged by z3')
+TECHNIQUE += ('; Sweep.__len__ as well')
 EXPLANATION = "see level text; obligations/discharged count the VCs of _check_dim_lengths only"
 RULE = ("all item dicts over keys a..d with value lists of length 0..3 (distinct values), all set partitions as dims and "
         "dims=None, with/without constants, derivers, exclude; distinct = distinct (items, dims, options); non-trivial "
@@ -55,7 +57,10 @@ def proof_items():
             ProofItem(sweep_c.multisweep_combine, gen=sweep_c.combine_gen,
                       registry=lambda: {**{c.short: c for c in sweep_c.ALL}, **{c.name: c for c in sweep_c.ALL}}),
             ProofItem(sweep_c.sweep_add, gen=sweep_c.sweep_add_gen, registry=_add_reg),
-            ProofItem(sweep_c.multisweep_add, gen=sweep_c.add_gen, registry=_add_reg)]
+            ProofItem(sweep_c.multisweep_add, gen=sweep_c.add_gen, registry=_add_reg),
+            # len(sweep) without an exclude function: the product of the sizes of the zipped groups
+            ProofItem(sweep_c.sweep_len, gen=sweep_c.len_gen,
+                      registry=lambda: {**{c.short: c for c in sweep_c.LEN}, **{c.name: c for c in sweep_c.LEN}})]
 
 
 def _add_reg():
